@@ -419,4 +419,52 @@ theorem step_qdot (T : LexTableOK) {inp p} {c : UInt8} {k rest : Bytes} (h : Inp
     simp only [next_rune h2 (runeAt_append rest hrune), Option.bind_eq_bind, Option.bind_some, backup_Lw, hty]
     simpa [itemOf] using hr1
 
+theorem wordEnd_notDigit {rest : Bytes} (h : WordEnd rest) : isDigit (hdRune rest) = false := by
+  cases rest with
+  | nil => simp [hdRune, isDigit]
+  | cons b s =>
+    have hn := isIdChar_nat_false h.2
+    simp only [hdRune, isDigit, Bool.and_eq_false_iff, decide_eq_false_iff_not]
+    by_cases h48 : 48 ≤ b.toNat
+    · right; exact decide_eq_false (by omega)
+    · left; exact decide_eq_false (by omega)
+
+/-- a dangling `.` (an access with the EMPTY key: `$a.`, `x. + 1` — accepted by the parser) -/
+theorem step_dot0 (T : LexTableOK) {inp p} {rest : Bytes} (h : InpAt inp p ([46] ++ rest)) (hr : WordEnd rest) (le its) :
+    Step2 inp p le its ⟨.tDotIdent, [46]⟩ := by
+  intro w
+  have h0 : InpAt inp p (46 :: rest) := by simpa using h
+  have h1 : InpAt inp (p + 1) rest := inpAt_tail h0
+  refine ⟨hdW rest, .ident, L inp p p 1 le its, ?_, ?_⟩
+  · simp only [step, lexInsideTag, next_L h0 (by decide), Option.bind_eq_bind, Option.bind_some]
+    simp [isSpaceEOL, isSpace, isEndOfLine, lexInsideTagMid, backup_L]
+  · have hr1 := identRest_word T (pre := [46]) (k := []) (rest := rest) (st := p) (by simpa using h) rfl hr
+      .tDotIdent .tDotIdent (Or.inr ⟨lookup_special T 46 _ (Or.inr (Or.inl rfl)), rfl, by simp, by simp⟩) (hdW rest) le its
+    simp only [step, lexIdent, next_L h0 (by decide), Option.bind_eq_bind, Option.bind_some]
+    rw [if_pos (by decide)]
+    simp only [next_hd h1 (wordEnd_ascii hr), Option.bind_eq_bind, Option.bind_some, backup_hd, wordEnd_notDigit hr,
+      Bool.false_eq_true, if_false]
+    simpa [itemOf] using hr1
+
+/-- a dangling `?.` -/
+theorem step_qdot0 (T : LexTableOK) {inp p} {rest : Bytes} (h : InpAt inp p ([63, 46] ++ rest)) (hr : WordEnd rest) (le its) :
+    Step2 inp p le its ⟨.tQuestionDotIdent, [63, 46]⟩ := by
+  intro w
+  have h0 : InpAt inp p (63 :: (46 :: rest)) := by simpa using h
+  have h1 : InpAt inp (p + 1) (46 :: rest) := inpAt_tail h0
+  have h2 : InpAt inp (p + 1 + 1) rest := inpAt_tail h1
+  refine ⟨hdW rest, .ident, L inp p p 1 le its, ?_, ?_⟩
+  · simp only [step, lexInsideTag, next_L h0 (by decide), Option.bind_eq_bind, Option.bind_some]
+    simp [isSpaceEOL, isSpace, isEndOfLine, lexInsideTagMid, next_L h1, addPos_L2]
+  · have hr1 := identRest_word T (pre := [63, 46]) (k := []) (rest := rest) (st := p) (by simpa using h) rfl hr
+      .tQuestionDotIdent .tQuestionDotIdent (Or.inr ⟨lookup_special T 63 _ (Or.inr (Or.inr rfl)), rfl, by simp, by simp⟩)
+      (hdW rest) le its
+    simp only [step, lexIdent, next_L h0 (by decide), Option.bind_eq_bind, Option.bind_some]
+    rw [if_neg (by decide), if_neg (by decide), if_neg (by decide), if_neg (by decide), if_pos (by decide)]
+    simp only [next_L h1 (by decide), Option.bind_eq_bind, Option.bind_some]
+    rw [if_neg (by decide)]
+    simp only [next_hd h2 (wordEnd_ascii hr), Option.bind_eq_bind, Option.bind_some, backup_hd, wordEnd_notDigit hr,
+      Bool.false_eq_true, if_false]
+    simpa [itemOf] using hr1
+
 end SoyVerif.Lemmas.LexPrint
